@@ -496,6 +496,7 @@ public:
     fwd_analyzer_t F(m_cfg, m_absval_fac, live, fixpo_params);
     std::unique_ptr<bwd_analyzer_t> B = nullptr;
     while (true) {
+      CRAB_VERIF_TICK();
       iters++;
       crab::CrabStats::count("CombinedForwardBackward.iterations");
       CRAB_VERBOSE_IF(1, get_msg_stream() << "Iteration " << iters << "\n"
